@@ -180,6 +180,9 @@ func (c *ctx) rpcRaceSection(r *lib.RNG) {
 		stop.Store(true)
 		wg.Wait()
 		res.Case(fmt.Sprintf("rpc-race/%v/%d", newState, seed), true)
+		if answered.Load() < 20 {
+			res.Fatalf("rpc-race: only %d responses while %d blocks were stored (new-state=%v): the readers did not overlap the stores", answered.Load(), blocks, newState)
+		}
 		res.HitN(fmt.Sprintf("rpc-race:responses-during-stores:new-state=%v", newState), int(answered.Load()))
 		res.HitN(fmt.Sprintf("rpc-race:responses-mixing-two-blocks:new-state=%v", newState), int(mixed.Load()))
 		res.HitN(fmt.Sprintf("rpc-race:responses-with-a-proof-of-mixed-nodes:new-state=%v", newState), int(torn.Load()))
